@@ -168,8 +168,22 @@ def iterable_params(ctx) -> List[Tuple[Unit, str, str]]:
                     continue  # a private cleanup helper: it *is* the close of what it receives
                 if _only_library_containers(ctx, u, p.arg):
                     continue  # a private helper that is handed the tuple of ``*args`` / a list its caller built
+                if _only_items(ctx, u, p.arg):
+                    continue  # a private helper that is handed an *item* of a stream (starmap's argument tuple), not a source
                 out.append((u, p.arg, f"{u.short}:{p.arg}"))
     return out
+
+
+def _only_items(ctx, u: Unit, pname: str) -> bool:
+    """every call site of the private helper ``u`` binds ``pname`` to an item taken from a source"""
+    from .c03 import _is_internal, bindings
+    if not _is_internal(u) or u.cls is not None:
+        return False
+    try:
+        b = bindings(ctx, u, pname)
+    except Exception:  # noqa: BLE001
+        return False
+    return bool(b) and all(bv and all(a[0] == "item" for a in bv) for bv in b)
 
 
 # --------------------------------------------------------------------------- close nodes
@@ -327,6 +341,13 @@ def _container_complete(ctx, unit: Unit, cfg: CFG, siter: Node, src: str) -> Opt
     it = siter.info["iter"]
     if isinstance(it, ast.Call) and isinstance(it.func, ast.Name) and it.func.id in ("enumerate", "reversed", "list", "tuple") and it.args:
         it = it.args[0]
+    if isinstance(it, (ast.Tuple, ast.List)):
+        # ``for x in (padding, *sources)``: the complete container spliced into a display next to objects the tool made itself
+        starred = [e.value for e in it.elts if isinstance(e, ast.Starred) and isinstance(e.value, ast.Name)]
+        others = [e for e in it.elts if not isinstance(e, ast.Starred)]
+        if len(starred) == 1 and len(starred) + len(others) == len(it.elts) \
+                and not any(_expr_mentions(ctx, unit, e, siter, src) for e in others):
+            it = starred[0]
     if not isinstance(it, ast.Name):
         return f"cleanup loop iterates `{norm(it)}`, not the bare container of acquired iterators"
     name = it.id
